@@ -144,7 +144,7 @@ theorem decodeOperands_bounds (code : Array Nat) (pc op : Nat) (info : OpInfo) (
         rw [hu] at h
         injection h with h; subst h
         have := decodeUps_bounds code code.size (pc + 1) ups p hu
-        simp only []; omega
+        refine ⟨rfl, ?_, ?_⟩ <;> dsimp only <;> omega
 
 /-- **Instruction fetch is in range**: a decoded instruction starts at `pc`, is at least one byte
 wide and lies entirely inside the code. -/
@@ -156,11 +156,11 @@ theorem decodeAt_bounds (code : Array Nat) (pc : Nat) (i : Instr) (h : decodeAt 
   | some op =>
     have hpc : pc < code.size := (Array.getElem?_eq_some_iff.mp hop).1
     rw [hop] at h
-    cases hinfo : opInfo op with
-    | none => simp only [hinfo] at h; cases h
-    | some info =>
-      simp only [hinfo] at h
-      exact decodeOperands_bounds code pc op info _ i hpc h
+    simp only [] at h
+    generalize opInfo op = oi at h
+    cases oi with
+    | none => cases h
+    | some info => exact decodeOperands_bounds code pc op info _ i hpc h
 
 /-! ## linear sweep -/
 
@@ -275,6 +275,43 @@ theorem onBoundaries_mem {bs : List Nat} {cert : List St} (h : onBoundaries bs c
   unfold onBoundaries at h
   simp only [List.all_eq_true] at h
   exact (idx_contains_iff bs s.pc).mp (h s hs)
+
+/-- list-membership form of `checkCert` (the kernel can evaluate it; the hash index is only speed) -/
+def checkCertL (P : Prog) (f : Func) (cfg : Cfg) (cert : List St) : Bool :=
+  cert.contains St.entry &&
+  cert.all fun s =>
+    match exec P f cfg s with
+    | .ok l => l.all fun s' => cert.contains s'
+    | .error _ => false
+
+theorem checkCert_eq_L (P : Prog) (f : Func) (cfg : Cfg) (cert : List St) :
+    checkCert P f cfg cert = checkCertL P f cfg cert := by
+  unfold checkCert checkCertL
+  simp only [Std.HashSet.contains_ofList]
+  rfl
+
+/-! ## bounded forward exploration (for witnesses) -/
+
+def stepAll (P : Prog) (f : Func) (cfg : Cfg) (l : List St) : List St :=
+  l.flatMap fun s => match exec P f cfg s with
+    | .ok l' => l'
+    | .error _ => []
+
+def reachN (P : Prog) (f : Func) (cfg : Cfg) : Nat → List St
+  | 0 => [St.entry]
+  | n + 1 => stepAll P f cfg (reachN P f cfg n)
+
+theorem reachN_sound (P : Prog) (f : Func) (cfg : Cfg) (n : Nat) :
+    ∀ s ∈ reachN P f cfg n, Reachable P f cfg s := by
+  induction n with
+  | zero => intro s hs; simp [reachN] at hs; subst hs; exact .entry
+  | succ k ih =>
+    intro s hs
+    simp only [reachN, stepAll, List.mem_flatMap] at hs
+    obtain ⟨s0, hs0, hmem⟩ := hs
+    cases he : exec P f cfg s0 with
+    | error e => rw [he] at hmem; simp at hmem
+    | ok l => rw [he] at hmem; exact .step (ih s0 hs0) he hmem
 
 /-! ## structure check -/
 
